@@ -9,6 +9,8 @@ namespace Pyttb
 
 variable {α : Type}
 
+namespace ML
+
 /-- `accumarray(idx, vals, size, func)`: entry `k` is `func` of the values filed under `k`
 (stored order), `0` for an empty group. -/
 def accumarray [Zero α] (idx : List Nat) (vals : List α) (size : Nat) (f : List α → α) : List α :=
@@ -24,6 +26,8 @@ def fromAggregator [Zero α] [BEq α] (subs : List (List Nat)) (vals : List α) 
   let nz := agg.filter fun e => !(e.2 == 0)
   ⟨shape, nz.map (·.1), nz.map (·.2)⟩
 
+end ML
+
 namespace Sparse
 
 /-- `S[subs]` for one subscript (`extract`): the value of the last stored match, else 0. -/
@@ -34,7 +38,7 @@ def lookup [Zero α] (S : Sparse α) (i : List Nat) : α :=
 
 /-- `sptensor.ttv` after `tt_dimscheck`. -/
 def ttvCore [Add α] [Mul α] [Zero α] [BEq α] (S : Sparse α) (pairs : List (Nat × List α)) :
-    Except Reject (Res α) :=
+    Except Reject (ML.Res α) :=
   let N := S.shape.length
   let sdims := pairs.map (·.1)
   if pairs.any (fun p => p.2.length != S.shape.getD p.1 0) then .error .reject
@@ -52,17 +56,17 @@ def ttvCore [Add α] [Mul α] [Zero α] [BEq α] (S : Sparse α) (pairs : List (
         if newvals.isEmpty then .ok (.sparse ⟨newsiz, [], []⟩)
         else
           let n0 := newsiz.getD 0 0
-          let c := accumarray (newsubs.map (·.getD 0 0)) newvals n0 List.sum
+          let c := ML.accumarray (newsubs.map (·.getD 0 0)) newvals n0 List.sum
           let cnt := (c.filter fun v => !(v == 0)).length
           if 2 * cnt ≤ n0 then
-            .ok (.sparse (fromAggregator ((List.range n0).map fun k => [k]) c newsiz List.sum))
+            .ok (.sparse (ML.fromAggregator ((List.range n0).map fun k => [k]) c newsiz List.sum))
           else .ok (.dense ⟨newsiz, c⟩)
       else
-        let c := fromAggregator newsubs newvals newsiz List.sum
+        let c := ML.fromAggregator newsubs newvals newsiz List.sum
         if 2 * c.nnz > numel newsiz then .ok (.dense c.full) else .ok (.sparse c)
 
 def ttv [Add α] [Mul α] [Zero α] [BEq α] (S : Sparse α) (vs : List (List α)) (dims excl : Option (List Int)) :
-    Except Reject (Res α) :=
+    Except Reject (ML.Res α) :=
   match resolveModes S.shape.length vs dims excl with
   | .error e => .error e
   | .ok pairs => S.ttvCore pairs
@@ -78,7 +82,7 @@ def _root_.Pyttb.Sptenmat.fromArray [Zero α] [BEq α] (Z : Mat α) (m n : Nat) 
 
 /-- `sptensor.ttm(matrix, n, transpose)` with an `ndarray`: the product of the sparse
 matricization with a dense matrix is dense, so the result is always a dense tensor. -/
-def ttm1 [Add α] [Mul α] [Zero α] [BEq α] (S : Sparse α) (M : Mat α) (p q : Nat) (n : Nat) (tr : Bool) :
+def ttmMode [Add α] [Mul α] [Zero α] [BEq α] (S : Sparse α) (M : Mat α) (p q : Nat) (n : Nat) (tr : Bool) :
     Except Reject (Dense α) :=
   let N := S.shape.length
   -- flip when transposed
@@ -103,7 +107,7 @@ def ttmList [Add α] [Mul α] [Zero α] [BEq α] (S : Sparse α) (pairs : List (
   match pairs with
   | [] => .error .reject
   | p :: rest =>
-    match S.ttm1 p.2.rows p.2.m p.2.n p.1 tr with
+    match S.ttmMode p.2.rows p.2.m p.2.n p.1 tr with
     | .error e => .error e
     | .ok Y => Y.ttmList rest tr
 
@@ -114,7 +118,7 @@ def ttm [Add α] [Mul α] [Zero α] [BEq α] (S : Sparse α) (Ms : List (Dense.M
   | .ok pairs => S.ttmList pairs tr
 
 /-- A result of `ttv` as the column `ttv.double()` stores into `V[:, r]`. -/
-def _root_.Pyttb.Res.toColumn [Add α] [Zero α] (r : Res α) (len : Nat) : List α :=
+def _root_.Pyttb.ML.Res.toColumn [Add α] [Zero α] (r : ML.Res α) (len : Nat) : List α :=
   match r with
   | .scalar v => List.replicate len v
   | r => (List.range len).map fun k => r.get [k]
@@ -160,7 +164,7 @@ def innerprodDense [Add α] [Mul α] [Zero α] (S : Sparse α) (D : Dense α) : 
 def normSq [Add α] [Mul α] [Zero α] (S : Sparse α) : α := (S.vals.map fun x => x * x).sum
 
 /-- `sptensor.contract(i0, i1)` (after the fix for a tensor without stored entries). -/
-def contract [Add α] [Zero α] [BEq α] (S : Sparse α) (i0 i1 : Nat) : Except Reject (Res α) :=
+def contract [Add α] [Zero α] [BEq α] (S : Sparse α) (i0 i1 : Nat) : Except Reject (ML.Res α) :=
   let N := S.shape.length
   if i0 ≥ N || i1 ≥ N then .error .reject
   else if S.shape.getD i0 0 != S.shape.getD i1 0 then .error .reject
@@ -174,12 +178,12 @@ def contract [Add α] [Zero α] [BEq α] (S : Sparse α) (i0 i1 : Nat) : Except 
       .ok (.scalar (((S.subs.zip S.vals).filter fun e => e.1.getD 0 0 == e.1.getD 1 0).map (·.2)).sum)
     else
       let diag := (S.subs.zip S.vals).filter fun e => e.1.getD i0 0 == e.1.getD i1 0
-      let y := fromAggregator (diag.map fun e => gather e.1 rem) (diag.map (·.2)) newsize List.sum
+      let y := ML.fromAggregator (diag.map fun e => gather e.1 rem) (diag.map (·.2)) newsize List.sum
       if 2 * y.nnz > numel newsize then .ok (.dense y.full) else .ok (.sparse y)
 
 /-- `sptensor.collapse(dims, fun)` (after the fix for collapsing an empty tensor completely). -/
 def collapse [Zero α] [BEq α] (S : Sparse α) (dims : Option (List Int)) (f : List α → α) :
-    Except Reject (Res α) :=
+    Except Reject (ML.Res α) :=
   let N := S.shape.length
   match resolveDims N dims with
   | .error e => .error e
@@ -190,9 +194,9 @@ def collapse [Zero α] [BEq α] (S : Sparse α) (dims : Option (List Int)) (f : 
       let newsize := gather S.shape rem
       if rem.length == 1 then
         if S.subs.isEmpty then .ok (.vec (List.replicate (newsize.getD 0 0) 0))
-        else .ok (.vec (accumarray (S.subs.map fun r => r.getD (rem.getD 0 0) 0) S.vals (newsize.getD 0 0) f))
+        else .ok (.vec (ML.accumarray (S.subs.map fun r => r.getD (rem.getD 0 0) 0) S.vals (newsize.getD 0 0) f))
       else if S.subs.isEmpty then .ok (.sparse ⟨newsize, [], []⟩)
-      else .ok (.sparse (fromAggregator (S.subs.map fun r => gather r rem) S.vals newsize f))
+      else .ok (.sparse (ML.fromAggregator (S.subs.map fun r => gather r rem) S.vals newsize f))
 
 /-- The factor of `sptensor.scale`. -/
 inductive ScaleFactor (α : Type) where
